@@ -257,8 +257,6 @@ theorem parseLine_lineOf (it : MItem) (h : GoodItem it) : parseLine (lineOf it) 
 
 /-! ### the read loops on well-formed lines -/
 
-def inWin (bs es : Nat) (it : MItem) : Bool := decide (bs ≤ it.ts / 1000) && decide (it.ts / 1000 ≤ es)
-def resMatch (res : List Char) (it : MItem) : Bool := res.isEmpty || decide (res = it.resource)
 
 theorem rangeLoop_good (bs es : Nat) (res : List Char) (prev : Nat) (its : List MItem) (tail : List Bytes) (acc : List MItem)
     (hg : ∀ it ∈ its, GoodItem it) (hcap : prev + acc.length + its.length < MAX_ITEM_AMOUNT) :
@@ -353,5 +351,304 @@ theorem findEntry_idxOf (gs : List Group) (off b : Nat) (t : Bytes) (ht : t.leng
       rw [ih (off + (groupBytes g).length) (fun x hx => hs x (by simp [hx])) (by omega)]
       simp only [List.dropWhile, hlt, decide_true, List.takeWhile]
       split <;> simp [groupsBytes, Nat.add_assoc]
+
+
+/-- one log file with its index, abstractly; `tail` / `idxTail` are the torn bytes of a crash state (empty in a live log) -/
+structure AFile where
+  id : FileId
+  groups : List Group
+  tail : Bytes := []
+  idxTail : Bytes := []
+
+def AFile.log (f : AFile) : Bytes := groupsBytes f.groups ++ f.tail
+def AFile.idx (f : AFile) : Bytes := idxOf 0 f.groups ++ f.idxTail
+def AFile.items (f : AFile) : List MItem := groupsItems f.groups
+
+def secOf (it : MItem) : Nat := it.ts / 1000
+
+/-- the directory holds exactly these files, in this order -/
+structure Rep (fs : FS) (al : List AFile) : Prop where
+  listing : fs.listLogs = al.map (·.id)
+  logs : ∀ f ∈ al, fs.logs.get? f.id = some f.log
+  idxs : ∀ f ∈ al, fs.idxs.get? f.id = some f.idx ∨ (fs.idxs.get? f.id = none ∧ f.groups = [])
+
+/-- what the writer guarantees about the files -/
+structure WF (al : List AFile) : Prop where
+  sorted : (al.flatMap (fun f => f.groups.map (·.1))).Pairwise (· ≤ ·)
+  secs : ∀ f ∈ al, ∀ g ∈ f.groups, ∀ it ∈ g.2, secOf it = g.1
+  good : ∀ f ∈ al, ∀ g ∈ f.groups, ∀ it ∈ g.2, GoodItem it
+  small : ∀ f ∈ al, (∀ g ∈ f.groups, g.1 < 18446744073709551616) ∧ (groupsBytes f.groups).length < 18446744073709551616
+  tails : ∀ f ∈ al, 10 ∉ f.tail ∧ f.idxTail.length < 16
+  cap : (al.flatMap AFile.items).length < MAX_ITEM_AMOUNT
+
+theorem stored_ts (it : MItem) : (stored it).ts = it.ts := rfl
+
+theorem inWin_stored (bs es : Nat) (it : MItem) : inWin bs es (stored it) = inWin bs es it := rfl
+
+/-- items of sorted groups are sorted -/
+theorem groupsItems_sec (gs : List Group) (hs : ∀ g ∈ gs, ∀ it ∈ g.2, secOf it = g.1) (lo hi : Nat)
+    (hb : ∀ g ∈ gs, lo ≤ g.1 ∧ g.1 ≤ hi) : ∀ it ∈ groupsItems gs, lo ≤ secOf it ∧ secOf it ≤ hi := by
+  intro it hit
+  obtain ⟨g, hg, hig⟩ := List.mem_flatMap.mp hit
+  rw [hs g hg it hig]
+  exact hb g hg
+
+theorem groupsItems_sorted (gs : List Group) (hs : ∀ g ∈ gs, ∀ it ∈ g.2, secOf it = g.1)
+    (hp : (gs.map (·.1)).Pairwise (· ≤ ·)) : (groupsItems gs).Pairwise (fun a b => secOf a ≤ secOf b) := by
+  induction gs with
+  | nil => simp [groupsItems]
+  | cons g rest ih =>
+    simp only [List.map_cons, List.pairwise_cons] at hp
+    simp only [groupsItems, List.flatMap_cons]
+    rw [List.pairwise_append]
+    refine ⟨?_, ih (fun x hx => hs x (by simp [hx])) hp.2, ?_⟩
+    · -- inside one group all seconds are equal
+      have : ∀ a ∈ g.2, ∀ b ∈ g.2, secOf a ≤ secOf b := by
+        intro a ha b hb
+        rw [hs g (by simp) a ha, hs g (by simp) b hb]; exact Nat.le_refl _
+      exact List.pairwise_of_forall_mem_list this
+    · intro a ha b hb
+      obtain ⟨g', hg', hbg⟩ := List.mem_flatMap.mp hb
+      rw [hs g (by simp) a ha, hs g' (by simp [hg']) b hbg]
+      exact hp.1 g'.1 (List.mem_map.mpr ⟨g', hg', rfl⟩)
+
+/-- on a list sorted by second that begins at or after `bs`, reading until the first item outside the window loses nothing -/
+theorem takeWhile_inWin_sorted (bs es : Nat) (l : List MItem) (hp : l.Pairwise (fun a b => secOf a ≤ secOf b))
+    (hlo : ∀ it ∈ l, bs ≤ secOf it) : l.takeWhile (inWin bs es) = l.filter (inWin bs es) := by
+  induction l with
+  | nil => rfl
+  | cons a rest ih =>
+    simp only [List.pairwise_cons] at hp
+    by_cases hw : inWin bs es a = true
+    · simp only [List.takeWhile_cons, hw, if_true, List.filter_cons]
+      rw [ih hp.2 (fun x hx => hlo x (by simp [hx]))]
+    · simp only [List.takeWhile_cons, hw, List.filter_cons]
+      have ha : es < secOf a := by
+        have := hlo a (by simp)
+        simp only [inWin, secOf, Bool.and_eq_true, decide_eq_true_eq] at hw this ⊢; omega
+      symm
+      simp only [Bool.false_eq_true, if_false]
+      rw [List.filter_eq_nil_iff]
+      intro x hx
+      have := hp.1 x hx
+      simp only [inWin, secOf, Bool.and_eq_true, decide_eq_true_eq] at this ha ⊢; omega
+
+
+theorem takeWhile_append_neg {α} (p : α → Bool) (l₁ l₂ : List α) (h : l₁.all p = false) :
+    (l₁ ++ l₂).takeWhile p = l₁.takeWhile p := by
+  induction l₁ with
+  | nil => simp at h
+  | cons a r ih =>
+    by_cases ha : p a = true
+    · simp only [List.all_cons, ha, Bool.true_and] at h
+      simp [ha, ih h]
+    · simp [ha]
+
+theorem takeWhile_append_pos {α} (p : α → Bool) (l₁ l₂ : List α) (h : l₁.all p = true) :
+    (l₁ ++ l₂).takeWhile p = l₁ ++ l₂.takeWhile p := by
+  induction l₁ with
+  | nil => simp
+  | cons a r ih =>
+    simp only [List.all_cons, Bool.and_eq_true] at h
+    simp [h.1, ih h.2]
+
+theorem takeWhile_all {α} (p : α → Bool) (l : List α) (h : l.all p = true) : l.takeWhile p = l := by
+  have := takeWhile_append_pos p l [] h
+  simpa using this
+
+/-- reading one live file from the offset of a group boundary: the items from there on, until the first one outside the window -/
+theorem rangeOneFile_live (gs pre post : List Group) (hsplit : gs = pre ++ post) (bs es : Nat) (res : List Char) (prev : Nat)
+    (hg : ∀ it ∈ groupsItems post, GoodItem it) (hcap : prev + (groupsItems post).length < MAX_ITEM_AMOUNT) :
+    rangeOneFile (groupsBytes gs) (groupsBytes pre).length bs es res prev =
+      ⟨(((groupsItems post).map stored).takeWhile (inWin bs es)).filter (resMatch res), ((groupsItems post).map stored).all (inWin bs es)⟩ := by
+  unfold rangeOneFile
+  rw [hsplit, groupsBytes_append, List.drop_left, groupsBytes_eq_items post]
+  have h1 := splitLines_items (groupsItems post) hg []
+  simp only [List.append_nil, splitLines] at h1
+  rw [h1]
+  have h2 := rangeLoop_good bs es res prev (groupsItems post) [] [] hg (by simpa using hcap)
+  simp only [List.append_nil] at h2
+  rw [h2]
+  by_cases hall : ((groupsItems post).map stored).all (inWin bs es) = true
+  · simp only [hall, if_true, rangeLoop, List.reverse_reverse]
+    rw [takeWhile_all _ _ hall]
+  · simp only [hall]
+    simp at hall ⊢
+
+
+theorem rangeRest_live (fs : FS) (B : List AFile) (hlogs : ∀ f ∈ B, fs.logs.get? f.id = some f.log) (hlive : ∀ f ∈ B, f.tail = [])
+    (hgood : ∀ f ∈ B, ∀ it ∈ f.items, GoodItem it) (bs es : Nat) (res : List Char) (items : List MItem)
+    (hcap : items.length + (B.flatMap AFile.items).length < MAX_ITEM_AMOUNT) :
+    rangeRest fs bs es res (B.map (·.id)) items =
+      some (items ++ (((B.flatMap AFile.items).map stored).takeWhile (inWin bs es)).filter (resMatch res)) := by
+  induction B generalizing items with
+  | nil => simp [rangeRest]
+  | cons f rest ih =>
+    have hlen : ((f :: rest).flatMap AFile.items).length = (groupsItems f.groups).length + (rest.flatMap AFile.items).length := by
+      simp only [List.flatMap_cons, List.length_append]; rfl
+    have hlog : f.log = groupsBytes f.groups := by simp [AFile.log, hlive f (by simp)]
+    have hr := rangeOneFile_live f.groups [] f.groups rfl bs es res items.length (hgood f (by simp)) (by omega)
+    simp only [List.map_cons, rangeRest, hlogs f (by simp), hlog]
+    have h0 : (groupsBytes []).length = 0 := rfl
+    rw [h0] at hr
+    rw [hr]
+    simp only []
+    by_cases hall : ((groupsItems f.groups).map stored).all (inWin bs es) = true
+    · simp only [hall, if_true]
+      rw [takeWhile_all _ _ hall]
+      have hle : (List.filter (resMatch res) (List.map stored (groupsItems f.groups))).length ≤ (groupsItems f.groups).length := by
+        exact Nat.le_trans (List.length_filter_le _ _) (by simp)
+      rw [ih (fun x hx => hlogs x (by simp [hx])) (fun x hx => hlive x (by simp [hx])) (fun x hx => hgood x (by simp [hx])) _
+        (by rw [List.length_append]; omega)]
+      simp only [List.flatMap_cons, List.map_append, AFile.items]
+      rw [takeWhile_append_pos _ _ _ hall]
+      simp [List.filter_append, List.append_assoc]
+    · have hall' : ((groupsItems f.groups).map stored).all (inWin bs es) = false := by simpa using hall
+      simp only [hall', Bool.false_eq_true, if_false]
+      simp only [List.flatMap_cons, List.map_append, AFile.items]
+      rw [takeWhile_append_neg _ _ _ hall']
+
+/-- what the index of a file answers for a begin second -/
+def firstOffset (gs : List Group) (bs : Nat) : Option (Nat × Nat) :=
+  match gs.dropWhile (fun g => decide (g.1 < bs)) with
+  | [] => none
+  | g :: _ => some (g.1, (groupsBytes (gs.takeWhile (fun g => decide (g.1 < bs)))).length)
+
+theorem idx_lookup (fs : FS) (f : AFile) (bs : Nat)
+    (hidx : fs.idxs.get? f.id = some f.idx ∨ (fs.idxs.get? f.id = none ∧ f.groups = []))
+    (hs : (∀ g ∈ f.groups, g.1 < 18446744073709551616) ∧ (groupsBytes f.groups).length < 18446744073709551616)
+    (ht : f.idxTail.length < 16) :
+    (fs.idxs.get? f.id).bind (findEntry · bs) = firstOffset f.groups bs := by
+  rcases hidx with h | ⟨h, hg⟩
+  · rw [h, Option.bind_some, AFile.idx, findEntry_idxOf f.groups 0 bs f.idxTail ht hs.1 (by omega)]
+    unfold firstOffset
+    split <;> simp_all
+  · rw [h, hg]; rfl
+
+theorem findStart_spec (fs : FS) (al : List AFile) (bs : Nat)
+    (hidx : ∀ f ∈ al, (fs.idxs.get? f.id).bind (findEntry · bs) = firstOffset f.groups bs) :
+    findStart fs bs (al.map (·.id)) =
+      match al.dropWhile (fun f => (firstOffset f.groups bs).isNone) with
+      | [] => none
+      | f :: B => (firstOffset f.groups bs).map (fun p => (f.id :: B.map (·.id), p.1, p.2)) := by
+  induction al with
+  | nil => rfl
+  | cons f rest ih =>
+    simp only [List.map_cons, findStart, hidx f (by simp)]
+    cases hfo : firstOffset f.groups bs with
+    | none =>
+      simp only [List.dropWhile, hfo, Option.isNone_none]
+      exact ih (fun x hx => hidx x (by simp [hx]))
+    | some p =>
+      simp [List.dropWhile, hfo]
+
+
+theorem secOf_stored (it : MItem) : secOf (stored it) = secOf it := rfl
+
+theorem filter_inRange (l : List MItem) (b e : Nat) (res : List Char) :
+    l.filter (inRange b e res) = (l.filter (inWin (b / 1000) (e / 1000))).filter (resMatch res) := by
+  rw [List.filter_filter]
+  congr 1
+  funext it
+  simp [inRange, Bool.and_comm]
+
+theorem filter_inWin_early (l : List MItem) (bs es : Nat) (h : ∀ it ∈ l, secOf it < bs) : (l.map stored).filter (inWin bs es) = [] := by
+  rw [List.filter_eq_nil_iff]
+  intro x hx
+  obtain ⟨it, hit, rfl⟩ := List.mem_map.mp hx
+  have := h it hit
+  simp only [inWin, secOf, stored_ts, Bool.and_eq_true, decide_eq_true_eq] at this ⊢
+  intro h1
+  have := of_decide_eq_true h1.1
+  omega
+
+/-- the items before the start position are too early, the ones from it on are sorted: reading until the first item past the
+window returns exactly the items of the window -/
+theorem assemble (early frm : List MItem) (b e : Nat) (res : List Char) (hearly : ∀ it ∈ early, secOf it < b / 1000)
+    (hlo : ∀ it ∈ frm, b / 1000 ≤ secOf it) (hsorted : frm.Pairwise (fun x y => secOf x ≤ secOf y)) :
+    specRange ((early ++ frm).map stored) b e res =
+      ((frm.map stored).takeWhile (inWin (b / 1000) (e / 1000))).filter (resMatch res) := by
+  unfold specRange
+  rw [filter_inRange, List.map_append, List.filter_append, filter_inWin_early early _ _ hearly, List.nil_append]
+  rw [takeWhile_inWin_sorted (b / 1000) (e / 1000) (frm.map stored)]
+  · exact List.Pairwise.map stored (fun x y h => h) hsorted
+  · intro x hx
+    obtain ⟨it, hit, rfl⟩ := List.mem_map.mp hx
+    exact hlo it hit
+
+theorem dropWhile_nil_all {α} (p : α → Bool) (l : List α) (h : l.dropWhile p = []) : ∀ a ∈ l, p a = true := by
+  induction l with
+  | nil => intro a ha; simp at ha
+  | cons x r ih =>
+    by_cases hx : p x = true
+    · simp only [List.dropWhile_cons, hx, if_true] at h
+      intro a ha
+      rcases List.mem_cons.mp ha with e | e
+      · exact e ▸ hx
+      · exact ih h a e
+    · simp [List.dropWhile_cons, hx] at h
+
+theorem takeWhile_all_mem {α} (p : α → Bool) (l : List α) : ∀ a ∈ l.takeWhile p, p a = true := by
+  induction l with
+  | nil => intro a ha; simp at ha
+  | cons x r ih =>
+    by_cases hx : p x = true
+    · simp only [List.takeWhile_cons, hx, if_true]
+      intro a ha
+      rcases List.mem_cons.mp ha with e | e
+      · exact e ▸ hx
+      · exact ih a e
+    · simp [List.takeWhile_cons, hx]
+
+theorem dropWhile_head_not {α} (p : α → Bool) (l : List α) (a : α) (r : List α) (h : l.dropWhile p = a :: r) : p a = false := by
+  induction l with
+  | nil => simp at h
+  | cons x t ih =>
+    by_cases hx : p x = true
+    · simp only [List.dropWhile_cons, hx, if_true] at h
+      exact ih h
+    · simp only [List.dropWhile_cons, hx] at h
+      simp only [Bool.false_eq_true, if_false, List.cons.injEq] at h
+      rw [← h.1]; simpa using hx
+
+theorem firstOffset_none (gs : List Group) (bs : Nat) (h : firstOffset gs bs = none) : ∀ g ∈ gs, g.1 < bs := by
+  unfold firstOffset at h
+  split at h
+  · rename_i hd
+    intro g hg
+    have := dropWhile_nil_all _ _ hd g hg
+    simpa using this
+  · simp at h
+
+theorem firstOffset_some (gs : List Group) (bs sec off : Nat) (h : firstOffset gs bs = some (sec, off)) :
+    ∃ pre g post, gs = pre ++ g :: post ∧ (∀ x ∈ pre, x.1 < bs) ∧ bs ≤ g.1 ∧ sec = g.1 ∧ off = (groupsBytes pre).length := by
+  unfold firstOffset at h
+  split at h
+  · simp at h
+  · rename_i g post hd
+    simp only [Option.some.injEq, Prod.mk.injEq] at h
+    refine ⟨gs.takeWhile (fun g => decide (g.1 < bs)), g, post, ?_, ?_, ?_, h.1.symm, h.2.symm⟩
+    · rw [← hd, List.takeWhile_append_dropWhile]
+    · intro x hx
+      have := takeWhile_all_mem _ _ x hx
+      simpa using this
+    · have := dropWhile_head_not _ _ _ _ hd
+      simp only [decide_eq_false_iff_not] at this
+      omega
+
+
+theorem items_flatMap_groups (B : List AFile) : B.flatMap AFile.items = groupsItems (B.flatMap (·.groups)) := by
+  induction B with
+  | nil => rfl
+  | cons f r ih => simp only [List.flatMap_cons, ih, AFile.items, groupsItems, List.flatMap_append]
+
+theorem length_takeWhile_le' {α} (p : α → Bool) (l : List α) : (l.takeWhile p).length ≤ l.length := by
+  induction l with
+  | nil => simp
+  | cons a r ih =>
+    simp only [List.takeWhile_cons]
+    split
+    · simp only [List.length_cons]; omega
+    · simp
 
 end Sentinel.MLog
